@@ -141,7 +141,16 @@ func cmdPlugin(args []string) {
 			tmp, _ := os.MkdirTemp("", "plug")
 			env := []string{"HOME=" + tmp, "TMPDIR=" + tmp, "PWD=" + tmp, "TZ=" + []string{"UTC", "Asia/Tokyo", "America/Lima"}[r%3],
 				"LANG=" + []string{"C", "en_US.UTF-8", "de_DE"}[r%3], "VERIF_MARKER=" + marker, "PATH=/usr/bin:/bin", "GOMAXPROCS=" + fmt.Sprint(1+r%4)}
-			resp, stderr, err := RunPlugin(*plugin, req, env)
+			// every other run invokes the plugin under a different name and path (protoc's
+			// --plugin=NAME=PATH override, a renamed build output): argv[0] is environment too
+			bin := *plugin
+			if r%2 == 1 {
+				alias := filepath.Join(tmp, "renamed-"+marker)
+				if os.Symlink(*plugin, alias) == nil {
+					bin = alias
+				}
+			}
+			resp, stderr, err := RunPlugin(bin, req, env)
 			os.RemoveAll(tmp)
 			ev := pluginEvent{Ev: "run", pluginCase: c, Param: param, Run: r, Out: []outFile{}, Hermetic: []string{}}
 			switch {
